@@ -120,7 +120,7 @@ def run(r):
         "exporter of uiua::Node trees to the model's node type (harness/src/lib.rs Export), arities taken from the primitive tables at export time",
         "primitives are abstract in the theorems (any psem); that a primitive pops/pushes what its table entry says is checked only by the correspondence and the sentinel search",
     ]
-    r.assumptions += ["trees satisfy tree_okb (stored operand signatures fit the checker's; no `by`/switch: their case is not proved yet) - measured on compiled programs every run",
+    r.assumptions += ["trees satisfy tree_okb (stored operand signatures fit the checker's, exactly for by/rows/each/inventory; operands of iterating modifiers leave the under stack alone; no switch: its case is not proved yet) - measured on compiled programs every run",
                       "signatures below 2^16 (u16 truncation not modelled)", "results Unk (construct outside the interpreter model) and OOF (fuel) are excluded by the statements"]
     if not r.harness(["c02"]):
         return
